@@ -21,6 +21,8 @@ mod update;
 
 pub use reconstruction::reconstruct;
 pub use update::update;
+#[cfg(feature = "verif-hooks")]
+pub(crate) use update::verif_branch;
 
 /// Do a partial lookup of the key in the beatree.
 ///
